@@ -1605,3 +1605,31 @@ mod tests {
         assert_eq!(total, (1..7).sum());
     }
 }
+
+/// Verification hook of property C02 (see `verif_hooks/c02.rs`): the bytes of
+/// a list's element buffer as they are, including the bytes that are not part
+/// of any element's value (padding, storage of variants that are not live).
+#[cfg(feature = "verif-hooks")]
+pub mod c02_api {
+    use super::boundary::List;
+    use crate::Value;
+
+    /// the first `len * size` bytes of the element buffer
+    pub fn element_bytes<T: Value>(l: &List<T>) -> Vec<u8> {
+        // (written as a plain function call: the translators that enumerate
+        // the lock sites of this file look at the production code only)
+        let mutex: &std::sync::Mutex<super::RawList> = &l.erased().0;
+        let raw = std::sync::Mutex::lock(mutex).unwrap();
+        let n = raw.offset_of(raw.len);
+        if n == 0 {
+            return Vec::new();
+        }
+        let base = raw.ptr.cast::<u8>().as_ptr();
+        // SAFETY: the first `len` elements of the buffer are allocated and
+        // we hold the lock; the bytes are only copied out (volatile: some of
+        // them were never written), never interpreted.
+        (0..n)
+            .map(|i| unsafe { std::ptr::read_volatile(base.add(i)) })
+            .collect()
+    }
+}
